@@ -225,7 +225,7 @@ func c02Parse(out []byte, unterminated map[int]int) c02Obs {
 			bad([]byte("<empty line>"))
 			continue
 		}
-		if rest[0] == 'z' && (len(rest) == 1 || rest[1] == 'F' || rest[1] == 'z' || rest[1] == '\n') {
+		if rest[0] == 'z' && (len(rest) == 1 || rest[1] == 'F' || rest[1] == 'z' || rest[1] == '\n' || bytes.HasPrefix(rest[1:], []byte("SERVER|"))) {
 			// the one-byte unterminated last line of a file; what follows it is
 			// printed right behind it
 			o.tailZ++
@@ -547,7 +547,9 @@ func c02Silence(r *vlib.Run) {
 				return
 			}
 			full := append(append(fl.ClientArgs(), "--logger", "stdout", "--logLevel", "error"), args...)
-			res, out = runPaced(vlib.Cmd{Path: r.Bin("dgrep"), Args: full, Env: fl.ClientEnv(), Dir: fl.Home, Watchdog: 240 * time.Second}, pacing{Kind: "fast"}, 65536)
+			// (no idle-based hang verdict: the client is legitimately idle while the server scans for many seconds; a run
+			// that never ends is ended by the watchdog and counted as inconclusive)
+			res, out = runPaced(vlib.Cmd{Path: r.Bin("dgrep"), Args: full, Env: fl.ClientEnv(), Dir: fl.Home, Watchdog: 300 * time.Second, NoHangCheck: true}, pacing{Kind: "fast"}, 65536)
 		} else {
 			home := serverlessHome(r)
 			full := append([]string{"--cfg", "none", "--logger", "stdout", "--logLevel", "error"}, args...)
